@@ -116,7 +116,12 @@ class FormulaParser(Parser):
         elif p[2] == '.':
             p[0] = to_number(p[1] + '.' + p[3])
         elif p[2] == '^':
-            p[0] = to_number(p[1])**to_number(p[3])
+            base, exponent = to_number(p[1]), to_number(p[3])
+            if base > 1 and exponent * math.log10(base) > 100000:
+                # a dozen characters must not buy hours of big-integer arithmetic (9^999999999)
+                p[0] = self.throw_error(error.NUM)
+            else:
+                p[0] = base**exponent
         elif p[2] == '%':
             p[0] = to_number(p[1]) / 100  # correctly rounded (n * 0.01 is one ulp off for 7%, 14%, ...)
 
